@@ -206,6 +206,9 @@ func BoolFact(b *ssa.BasicBlock, suffix string, want bool) bool {
 		if strings.HasSuffix(describe(v), suffix) && taken == want {
 			return true
 		}
+		if c, ok := v.(*ssa.Call); ok && strings.HasSuffix(suffix, "()") && core.MethodName(c.Common())+"()" == suffix && taken == want {
+			return true
+		}
 	}
 	return false
 }
